@@ -138,6 +138,13 @@ Proof.
   destruct (s_fut s1); auto. destruct (pending s1 n); auto. rewrite same4_accepted_complete. exact H1.
 Qed.
 
+Lemma acc_timeout s : s_accepted (fst (timeout_mechanism s)) = s_accepted s.
+Proof.
+  unfold timeout_mechanism. destruct (s_kind s), (s_fut s) as [f|]; cbn [fst]; auto.
+  - destruct (pending s f); cbn [fst]; auto. rewrite same4_accepted_complete. reflexivity.
+  - destruct (pending s f); cbn [fst]; auto. rewrite acc_close. reflexivity.
+Qed.
+
 (* ---------------------------------------------------------------- fragments (C07) *)
 Lemma partial_step s id len e :
   s_cmd s = true -> s_partial s = None ->
